@@ -4,6 +4,9 @@ from harness.lifecycle import run_lifecycle, replay_lifecycle
 
 def run(ctx):
     run_lifecycle(ctx, "C03")
+    if not ctx.quick:      # the composed loop (real script + real command-line programs): this property's clauses of it
+        from harness.pipeline import run_e2e
+        run_e2e(ctx, "C03", [(2, ctx.seed), (3, ctx.seed + 1)])
 
 
 def replay(ctx, rp):
